@@ -15,6 +15,10 @@ modules are not declared at all - the reader has to infer black boxes from the n
 """
 
 
+import re
+_SIMPLE = re.compile(r"^[A-Za-z_][A-Za-z0-9_$]*$")
+
+
 class Unrenderable(Exception):
     """the design has a connection shape structural Verilog cannot express (e.g. a hole below a connected bit)"""
 
@@ -28,8 +32,8 @@ def render(st, n, opts=None):
     esc = opts.get("escaped", False)
 
     def ident(name, allow_escape=True):
-        if esc and allow_escape:
-            return "\\" + name + " "
+        if (esc and allow_escape) or not _SIMPLE.match(name):
+            return "\\" + name + " "         # names like j[0] can only be written escaped
         return name
 
     def rng(width, lower):
@@ -60,26 +64,83 @@ def render(st, n, opts=None):
             w("`celldefine")
         decls = []
         heads = []
+        # header-aliased ports: a port whose pins meet other nets than its same-named one is written
+        # .port({msb, ..., lsb}) in the header and the nets it meets carry the direction declaration
+        wire_home = {}
+        for c in cables:
+            for k, wi in enumerate(st["cabWires"][c - 1]):
+                wire_home[wi] = (st["cabData"][c - 1]["name"], k, c)
+        alias = {}            # port -> wires met by its pins, least significant first
         for p in ports:
+            pname = st["portData"][p - 1]["name"]
+            met = [st["pinWire"][q - 1] or None for q in st["portPins"][p - 1]]
+            if all(x is None or (x in wire_home and wire_home[x][:2] == (pname, k)) for k, x in enumerate(met)):
+                continue
+            if any(x is None or x not in wire_home for x in met):
+                raise Unrenderable("aliased port with an unconnected or foreign bit")
+            alias[p] = met
+        alias_nets = []       # (cable, direction) in order of first use
+        for p in ports:
+            for x in alias.get(p, ()):
+                c = wire_home[x][2]
+                dirs = [dd for cc, dd in alias_nets if cc == c]
+                if dirs and dirs[0] != st["portAttr"][p - 1]["dir"]:
+                    raise Unrenderable("a net met by aliased ports of two directions")
+                if not dirs:
+                    alias_nets.append((c, st["portAttr"][p - 1]["dir"]))
+        plain_names = [st["portData"][p - 1]["name"] for p in ports if p not in alias]
+        for c, dd in alias_nets:
+            cn = st["cabData"][c - 1]["name"]
+            if cn in CONST:
+                raise Unrenderable("a constant in a port alias")
+            if cn in [st["portData"][p - 1]["name"] for p in ports]:
+                raise Unrenderable("an aliased port meets the net of another port")
+        decl_names = []
+        for p in ports:
+            if p in alias:
+                continue
             a = st["portAttr"][p - 1]
             heads.append("%s %s" % (DIRW[a["dir"]], rng(len(st["portPins"][p - 1]), a["lower"])))
             decls.append("%s %s%s" % (DIRW[a["dir"]], rng(len(st["portPins"][p - 1]), a["lower"]),
                                       ident(st["portData"][p - 1]["name"], False)))
+            decl_names.append(ident(st["portData"][p - 1]["name"], False))
+        for c, dd in alias_nets:
+            a = st["cabAttr"][c - 1]
+            heads.append("%s %s" % (DIRW[dd], rng(len(st["cabWires"][c - 1]), a["lower"])))
+            decls.append("%s %s%s" % (DIRW[dd], rng(len(st["cabWires"][c - 1]), a["lower"]), ident(st["cabData"][c - 1]["name"])))
+            decl_names.append(ident(st["cabData"][c - 1]["name"]))
+        alias_net_names = [st["cabData"][c - 1]["name"] for c, _ in alias_nets]
         dk = st["defData"][d - 1].get("k", "")
         if dk:          # a module attribute, written as TWO separate attribute sets ahead of the module
             w('(* A = "%s" *)' % dk)
             w('(* B = "1" *)')
-        if opts.get("ansi"):
+        if opts.get("ansi") and not alias:
             w("module %s(%s);" % (modname(dname), ", ".join(decls)))
         else:
-            w("module %s(%s);" % (modname(dname), ", ".join(ident(x, False) for x in port_names)))
+            def header_item(p):
+                pn = ident(st["portData"][p - 1]["name"], False)
+                if p not in alias:
+                    return pn
+                refs = []
+                for x in reversed(alias[p]):
+                    cn, k, c = wire_home[x]
+                    nmx = ident(cn)
+                    wd, lo = len(st["cabWires"][c - 1]), st["cabAttr"][c - 1]["lower"]
+                    refs.append(nmx if wd == 1 and lo == 0 else "%s[%d]" % (nmx, lo + k))
+                whole = [wire_home[x][2] for x in alias[p]]
+                c0 = whole[0]
+                if (not opts.get("concat") and all(c == c0 for c in whole)
+                        and [wire_home[x][1] for x in alias[p]] == list(range(len(st["cabWires"][c0 - 1])))):
+                    return ".%s(%s)" % (pn, ident(st["cabData"][c0 - 1]["name"]))       # the whole net
+                return ".%s({%s})" % (pn, ", ".join(refs))
+            w("module %s(%s);" % (modname(dname), ", ".join(header_item(p) for p in ports)))
             if opts.get("grouped"):
                 j = 0
-                while j < len(ports):
+                while j < len(heads):
                     k = j
-                    while k + 1 < len(ports) and heads[k + 1] == heads[j]:
+                    while k + 1 < len(heads) and heads[k + 1] == heads[j]:
                         k += 1
-                    w("  %s%s;" % (heads[j], ", ".join(ident(x, False) for x in port_names[j:k + 1])))
+                    w("  %s%s;" % (heads[j], ", ".join(decl_names[j:k + 1])))
                     j = k + 1
             else:
                 for dd in decls:
@@ -91,7 +152,7 @@ def render(st, n, opts=None):
             wires = st["cabWires"][c - 1]
             for k, wi in enumerate(wires):
                 cab_of_wire[wi] = (cname, k, len(wires), a["lower"])
-            if cname in port_names or cname in CONST:
+            if cname in port_names or cname in CONST or cname in alias_net_names:
                 continue
             ck = st["cabData"][c - 1].get("k", "")
             w("  %swire %s%s;" % (('(* A = "%s" *) ' % ck) if ck else "", rng(len(wires), a["lower"]), ident(cname)))
